@@ -136,7 +136,7 @@ class Rational(primitives.Expression):
         return Rational(self.Denominator, self.Numerator).__rmul__(other)
 
     def __pow__(self, other):
-        return Rational(self.Denominator**other, self.Numerator**other)
+        return Rational(self.Numerator**other, self.Denominator**other)
 
     # names of the attributes holding the values of __getinitargs__ (used for unpickling)
     init_arg_names = ("Numerator", "Denominator")
